@@ -378,15 +378,27 @@ where
             &SendData { data, fport, confirmed },
         )?;
         // Transmit our data packet
-        let ms = self
-            .radio
-            .tx(tx_config, self.radio_buffer.as_ref_for_read())
-            .await
-            .map_err(Error::Radio)?;
+        let ms = match self.radio.tx(tx_config, self.radio_buffer.as_ref_for_read()).await {
+            Ok(ms) => ms,
+            Err(e) => {
+                // The frame may already be on air: its frame counter must never be used again.
+                let _ = self.mac.rx2_complete();
+                return Err(Error::Radio(e));
+            }
+        };
 
         // Wait for received data within window
         self.timer.reset();
-        Ok(self.rx_downlink(&Frame::Data, ms, &rx_windows).await?.into())
+        match self.rx_downlink(&Frame::Data, ms, &rx_windows).await {
+            Ok(response) => Ok(response.into()),
+            Err(e) => {
+                // A radio error cut the receive procedure short before it could retire the
+                // uplink's frame counter (a counter that is skipped is harmless, one that is
+                // reused is not).
+                let _ = self.mac.rx2_complete();
+                Err(e)
+            }
+        }
     }
 
     /// Take the downlink data from the device. This is typically called after a
